@@ -1,6 +1,20 @@
-From Plotink Require Import Base.Prelude Base.PyStr Model.Serial3 Corr.S3.
+From Plotink Require Import Base.Prelude Base.PyStr Model.Serial3 Corr.S3 Corr.C05.
 Open Scope Z_scope.
-Inductive case04 := K04 (c : cfg) (sc : script) (h : list (call * obs)).
+(* read_err: for every call, whether the port handed it a line containing "Err:" (observed by the fake port) *)
+Inductive case04 := K04 (c : cfg) (sc : script) (h : list (call * obs)) (read_err : list bool).
+
+(* "once an object has recorded an error (device error reply, ...)": a request that read a device error line while the object was
+   connected and error-free must leave an error recorded (the latch can only be judged on errors that get recorded at all) *)
+Fixpoint dev_err_recorded (err_before : option Z) (port_before : bool) (h : list (call * obs)) (re : list bool) : bool :=
+  match h, re with
+  | (k, ob) :: t, r :: rt =>
+      let clean := port_before && match err_before with None => true | Some _ => false end in
+      (if clean && is_request k && negb (exempt k) && r
+       then match o_err ob with Some _ => true | None => false end else true) &&
+      dev_err_recorded (o_err ob) (o_port ob) t rt
+  | _, _ => true
+  end.
+
 Definition check04 (k : case04) : Z :=
-  match k with K04 c sc h => code_of (0 <=? replay c init sc h 0) (negb (latch_ok None false h)) end.
+  match k with K04 c sc h re => code_of (0 <=? replay c init sc h 0) (negb (latch_ok None false h && dev_err_recorded None false h re)) end.
 Definition run04 (cs : list case04) := report (map check04 cs).
